@@ -27,7 +27,7 @@ enum { P_RING_INT = 0, P_RING_TRACKED, P_SV_NORMAL, P_SV_NOINIT_DESTROY, P_SV_NO
 enum {
     R_CONSTRUCT = 0, R_PUSH_BACK, R_PUSH_BACK_MOVE, R_EMPLACE_BACK, R_PUSH_FRONT, R_PUSH_FRONT_MOVE, R_EMPLACE_FRONT,
     R_POP_FRONT, R_POP_BACK, R_CLEAR, R_COPY_CTOR, R_COPY_ASSIGN, R_MOVE_CTOR, R_MOVE_ASSIGN, R_DEALLOCATE, R_ALLOCATE,
-    R_COPY_TO, R_MOVE_TO, R_DESTROY, R_DEFAULT_CTOR, R_N
+    R_COPY_TO, R_MOVE_TO, R_DESTROY, R_DEFAULT_CTOR, R_PUSH_BACK_ALIAS, R_PUSH_FRONT_ALIAS, R_N
 };
 enum { V_CONSTRUCT = 0, V_MOVE_CTOR, V_MOVE_ASSIGN, V_SWAP, V_RESIZE, V_DESTROY, V_FILL, V_WRITE, V_DROP, V_N };
 const uint32_t RECYCLE[] = {0, 300, 700, 1000};
@@ -75,7 +75,8 @@ void run_ring(const Workload& w, Result& res) {
     int next_val = 1, step = 0;
     static const char* names[] = {"construct", "push_back", "push_back_move", "emplace_back", "push_front", "push_front_move",
                                   "emplace_front", "pop_front", "pop_back", "clear", "copy_ctor", "copy_assign", "move_ctor",
-                                  "move_assign", "deallocate", "allocate", "copy_to", "move_to", "destroy", "default_ctor"};
+                                  "move_assign", "deallocate", "allocate", "copy_to", "move_to", "destroy", "default_ctor", "push_back_alias",
+                                  "push_front_alias"};
     for (auto& op : w.ops) {
         if (op.empty()) continue;
         int code = int(sim::modn(op[0], R_N));
@@ -95,6 +96,20 @@ void run_ring(const Workload& w, Result& res) {
         case R_PUSH_FRONT: if (can_push(i)) { T t = make<T>(next_val); r[i]->push_front(t); m[i].vals.push_front(next_val++); did = true; } break;
         case R_PUSH_FRONT_MOVE: if (can_push(i)) { r[i]->push_front(make<T>(next_val)); m[i].vals.push_front(next_val++); did = true; } break;
         case R_EMPLACE_FRONT: if (can_push(i)) { r[i]->emplace_front(make<T>(next_val)); m[i].vals.push_front(next_val++); did = true; } break;
+        // the argument is a reference to an element of the same buffer
+        case R_PUSH_BACK_ALIAS:
+            if (can_push(i) && !m[i].vals.empty()) {
+                size_t k = cap % m[i].vals.size();
+                r[i]->push_back((*r[i])[k]); m[i].vals.push_back(m[i].vals[k]); did = true;
+            }
+            break;
+        case R_PUSH_FRONT_ALIAS:
+            if (can_push(i) && !m[i].vals.empty()) {
+                size_t k = cap % m[i].vals.size();
+                int v = m[i].vals[k];
+                r[i]->push_front((*r[i])[k]); m[i].vals.push_front(v); did = true;
+            }
+            break;
         case R_POP_FRONT: if (present[i] && !m[i].vals.empty()) { r[i]->pop_front(); m[i].vals.pop_front(); did = true; } break;
         case R_POP_BACK: if (present[i] && !m[i].vals.empty()) { r[i]->pop_back(); m[i].vals.pop_back(); did = true; } break;
         case R_CLEAR: if (present[i]) { r[i]->clear(); m[i].vals.clear(); did = true; } break;
